@@ -4,6 +4,7 @@ CONSTANTS
  ConnIds = {1}
  HLEN = 4
  MAXSTEPS = 2
+ PACE = 0
 INVARIANTS QueueWellFormed SceneIsWhatWasAskedFor
 VIEW View
 CHECK_DEADLOCK FALSE
